@@ -4,7 +4,7 @@ CFG = dict(
     level="proof",
     lean_modules=["ElysModel.Props.C04"],
     props_files=["ElysModel/Props/C04.lean"],
-    runs=[dict(mode="c04", n_quick=60, n_thorough=600, shards_quick=8, shards_thorough=14)],
+    runs=[dict(mode="c04", n_quick=100, n_thorough=600, shards_quick=12, shards_thorough=14)],
     rule="blocks of 1-8 swap requests on the real app through FinalizeBlock+Commit: exact-in and exact-out, 1 and 2 hops, both directions on three uatom/uusdc pools (one balancer, two "
          "oracle) and the uelys/uusdc pool, limits set at / 0.1% off / one unit beyond a dry-run quote, each request with its own fresh sender and (half of the time) a distinct fresh "
          "recipient, price-moving swaps by other users interleaved in the same block; an evaluation is one request or one block; non-trivial = distinct request lines",
